@@ -198,6 +198,15 @@ def stepFw (pid : String) (d : DrvSt) (op : String) (got : String) : StepResult 
     match n.toNat? with
     | some n => if n ≥ 1 then newOp a sv cap dnl true n else bad
     | none => bad
+  | ["faces2", _k] =>
+    /- concurrent registration of a Local and a NonLocal face in the real face table: each keeps its own
+       id, and the face the forwarder finds under an arrival's id is the face the packet arrived on -/
+    { st := d, expected := some "ok", cov := ["faces2"],
+      spec := (if got != "ok" && !isCrash got then
+          [(⟨"C09-arrival-scope-attribution", "face-id-clash", s!"two faces registered at the same moment: {got} (the scope found under an arrival's face id is not the scope of the face it arrived on)"⟩ : SpecFail)] ++
+          (if (got.splitOn "accepted=").getLast? != some "0" then
+            [(⟨"C09-localhost-accepted-inbound", "face-id-clash", s!"a /localhost Interest arriving on the NON-local one of two concurrently registered faces was accepted: {got}"⟩ : SpecFail)] else [])
+        else []).filter (keepClause pid) }
   | ["scope", kind, addr] =>
     -- scope classification by the real transport constructors against the specification
     let want := if Spec.scopeLocal kind addr then "L" else "N"
